@@ -90,6 +90,7 @@ func c13Run(c *vk.Ctx) {
 		opsPer := c.N(60, 150)
 		var ops atomic.Int64
 		var bindFailures atomic.Int64
+		var listenErr atomic.Value // a listen on an address nobody else holds failed: the manager lost track of its own socket
 		var pool struct {
 			sync.Mutex
 			hs []lnHandle
@@ -137,6 +138,9 @@ func c13Run(c *vk.Ctx) {
 						ln, err := m.ListenStream(addr)
 						if err != nil {
 							bindFailures.Add(1)
+							if addr != busy {
+								listenErr.CompareAndSwap(nil, "ListenStream("+addr+"): "+err.Error())
+							}
 						} else {
 							pool.Lock()
 							pool.hs = append(pool.hs, lnHandle{ln.Close, "stream", addr})
@@ -146,6 +150,9 @@ func c13Run(c *vk.Ctx) {
 						pc, err := m.ListenPacket(addr)
 						if err != nil {
 							bindFailures.Add(1)
+							if addr != busy {
+								listenErr.CompareAndSwap(nil, "ListenPacket("+addr+"): "+err.Error())
+							}
 						} else {
 							pool.Lock()
 							pool.hs = append(pool.hs, lnHandle{pc.Close, "packet", addr})
@@ -200,6 +207,10 @@ func c13Run(c *vk.Ctx) {
 		}
 		close(stopTraffic)
 		twg.Wait()
+		if v := listenErr.Load(); v != nil {
+			c.Violation("C13/listen-fails-on-an-address-only-the-manager-uses", map[string]any{"round": round, "error": v, "goroutines": G})
+			return
+		}
 		// close what is left, then the manager must still be usable
 		pool.Lock()
 		left := pool.hs
